@@ -196,13 +196,20 @@ func runTape(t Tape, timeout time.Duration) replayResult {
 // the expected violation reproduced.
 func replayTape(t Tape, attempts int) (string, string) {
 	var last replayResult
+	infra := 0
 	for i := 0; i < attempts; i++ {
-		last = runTape(t, 60*time.Second)
+		last = runTape(t, 120*time.Second)
 		if matches(t, last) {
 			return "reproduced", last.Raw
 		}
-		if last.Outcome == "error" {
-			break
+		if last.Outcome == "error" || last.Outcome == "timeout" {
+			// the replay itself did not run to a verdict (a heavily loaded machine, a killed process): that says
+			// nothing about the counterexample - try again a few times, not counted against the attempts
+			infra++
+			if infra > 3 {
+				break
+			}
+			i--
 		}
 	}
 	return "not-reproduced(" + last.Outcome + ")", last.Raw
